@@ -277,11 +277,8 @@ fn case<T: Exo>(name: &str, val: T, rep: &mut ExoticReport, only: Option<&str>) 
                 continue;
             }
         };
-        if saw_enum || has_other(&root) {
-            // enum variants / 128-bit values too wide for this medium: byte lane only
-            continue;
-        }
-        // A2: exactly the three public field names at the top
+        // A2: exactly the three public field names at the top (a skipped-then-written or a
+        // skipped-and-missing field shows up here)
         cx.eval();
         let keys: Vec<&str> = match &root {
             Node::Struct { entries, .. } => entries.iter().map(|e| e.0.as_str()).collect(),
@@ -290,7 +287,11 @@ fn case<T: Exo>(name: &str, val: T, rep: &mut ExoticReport, only: Option<&str>) 
         let mut sorted = keys.clone();
         sorted.sort();
         if sorted != ["disp", "rot", "scale"] {
-            cx.fail(format!("{}: structure", mname), "A2", format!("top-level keys written: {:?}", keys));
+            cx.fail(format!("{}: structure", mname), "A2", format!("top-level keys written (incl. skip_field calls): {:?}", keys));
+            continue;
+        }
+        if saw_enum || has_other(&root) {
+            // enum variants / 128-bit values too wide for this medium: byte lane only
             continue;
         }
         // A1
